@@ -885,6 +885,41 @@ func c08ItemLoops(c *Ctx, a *sketchAnchors) {
 		}
 		c.R.floor(rule, "store bin decoders", nd, 5)
 	}
+	// … and the two bin decoders that read the layouts refuse a block only for what the primitives refuse (or for an
+	// unknown layout): an error they mint themselves in the middle of a layout — a range guard, a sanity check —
+	// would have to be shown never to fire on a well-formed block, which nothing here can do
+	for _, f := range fns {
+		paths, _ := exec(c, f, nil, 1)
+		arms, _ := dispatchArms(paths, func(t *Term) bool { return t.isParam(len(f.Params) - 1) })
+		isDefault := map[*Path]bool{}
+		for _, p := range arms["default"] {
+			isDefault[p] = true
+		}
+		bad := ""
+		n := 0
+		for _, p := range paths {
+			last := len(p.RetT) - 1
+			if last < 0 || p.RetNil(last) != -1 {
+				continue
+			}
+			n++
+			r := p.RetT[last]
+			fromCall := r.Op == "extract" && len(r.Args) == 1 && (r.Args[0].Op == "call" || r.Args[0].Op == "invoke")
+			viaCall := r.Op == "call" || r.Op == "invoke" // return f(...) delegating
+			if fromCall && (strings.Contains(r.Args[0].Sym, "encoding.Decode") || strings.HasSuffix(r.Args[0].Sym, "DecodeAndMergeWith")) {
+				continue
+			}
+			if viaCall && strings.HasSuffix(r.Sym, "DecodeAndMergeWith") {
+				continue
+			}
+			if isDefault[p] {
+				continue
+			}
+			bad = "an error of the decoder's own making on a known layout: " + describeRet(p) + " on [" + pathSig(p) + "]"
+		}
+		c.R.check(bad == "", rule, shortFn(f)+"/refuses-only-what-the-primitives-refuse", shortFn(f), c.fpos(f),
+			"every error return is the error of a primitive decoder (or of the decoder delegated to), or the refusal of an unknown layout", firstNonEmpty(bad, fmt.Sprintf("%d error path(s)", n)))
+	}
 }
 
 // c08BatchStep decides the batch form of an item counter: `step` (the amount added to the counter in one turn of the
